@@ -98,8 +98,18 @@ func genEngine(o *Out, r *rand.Rand, thorough bool) {
 				tags["takeback"] = true
 			case x < 25:
 				f := corpus[r.Intn(len(corpus))]
-				if r.Intn(3) == 0 {
+				switch r.Intn(4) {
+				case 0:
 					f = mutate(r, f)
+				case 1:
+					// the diagram the game has just reached, set up as a NEW game: verbatim, or with other clocks (nothing of
+					// the old game - clocks, history, take-back - may survive a reset to the same diagram)
+					np, fm := b.NoProgress(), b.FullMoves()
+					if r.Intn(2) == 0 {
+						np, fm = r.Intn(60), 1+r.Intn(90)
+					}
+					f = fen.Encode(b.Position(), b.Turn(), np, fm)
+					tags["reset-same-diagram"] = true
 				}
 				if p2, t2, np2, fm2, err := fen.Decode(f); err == nil {
 					if !chessWF(p2, t2) {
